@@ -27,6 +27,13 @@ Theorem consts_ok : end_token_name = END_TOKEN /\ default_skip = [[83;80;65;67;6
 Proof. split; reflexivity. Qed.
 Print Assumptions consts_ok.
 
+(* the tokenizer loop of the source starts every non-empty line (outside a span) with
+   prev_end_pos = SrcPos(src_name, line_id, 1); without that statement line_start_column is false
+   and the soundness lemmas of C04/LemmasLex.v do not check *)
+Theorem source_shape : line_start_reset = true.
+Proof. reflexivity. Qed.
+Print Assumptions source_shape.
+
 (* ------------------------------------------------------------------ leaves *)
 (* Every token (skipped ones included) is the product of pattern matches at exactly the
    reported positions, and get_orig_text gives back exactly the matched characters:
